@@ -59,7 +59,7 @@ class C11(Check):
                          'for i in range(1, num_occurrences):')]}
 
     def _sizes(self, tier):
-        return [1, 2, 3, 4, 5, 6, 8, 12] if tier == 'quick' else list(range(1, 25)) + [40, 150]
+        return [1, 2, 3, 4, 5, 6, 8, 12] if tier == 'quick' else list(range(1, 151))
 
     def _nw(self, tier):
         if tier == 'quick':
